@@ -104,8 +104,10 @@ type modDef struct {
 	get       func() string
 	getRes    func(res string) string
 	trafficOp []sentinel.EntryOption
-	afterLoad func() // e.g. trip breakers
-	newPasses bool   // a freshly loaded rule does not block yet (circuit breaker)
+	// trafficOp2: a second request shape that meets the same rule with a different per-value state
+	trafficOp2 []sentinel.EntryOption
+	afterLoad  func() // e.g. trip breakers
+	newPasses  bool   // a freshly loaded rule does not block yet (circuit breaker)
 }
 
 func mods() []modDef {
@@ -181,27 +183,40 @@ func mods() []modDef {
 		getRes:    func(res string) string { return fmt.Sprint(len(isolation.GetRulesOfResource(res))) },
 		trafficOp: []sentinel.EntryOption{sentinel.WithBatchCount(2)},
 	})
-	out = append(out, modDef{name: "hotspot",
-		load: func(ids ...string) {
-			var rs []*hotspot.Rule
-			for _, id := range ids {
-				rs = append(rs, hs(id))
-			}
-			must(hotspot.LoadRules(rs))
-		},
-		loadRes: func(res string, ids ...string) {
-			var rs []*hotspot.Rule
-			for _, id := range ids {
-				rs = append(rs, hs(id))
-			}
-			must(hotspot.LoadRulesOfResource(res, rs))
-		},
-		clear:     func() { _ = hotspot.ClearRules() },
-		clearRes:  func(res string) { _ = hotspot.ClearRulesOfResource(res) },
-		get:       func() string { return fmt.Sprint(len(hotspot.GetRules())) },
-		getRes:    func(res string) string { return fmt.Sprint(len(hotspot.GetRulesOfResource(res))) },
-		trafficOp: []sentinel.EntryOption{sentinel.WithArgs("v")},
-	})
+	// hotspot rules come in two kinds with separate per-value machinery (token buckets / in-flight counters)
+	hsc := func(id string) *hotspot.Rule {
+		r := hs(id)
+		r.MetricType = hotspot.Concurrency
+		return r
+	}
+	for _, hv := range []struct {
+		name string
+		mk   func(string) *hotspot.Rule
+	}{{"hotspot", hs}, {"hotspot-concurrency", hsc}} {
+		hv := hv
+		out = append(out, modDef{name: hv.name,
+			load: func(ids ...string) {
+				var rs []*hotspot.Rule
+				for _, id := range ids {
+					rs = append(rs, hv.mk(id))
+				}
+				must(hotspot.LoadRules(rs))
+			},
+			loadRes: func(res string, ids ...string) {
+				var rs []*hotspot.Rule
+				for _, id := range ids {
+					rs = append(rs, hv.mk(id))
+				}
+				must(hotspot.LoadRulesOfResource(res, rs))
+			},
+			clear:      func() { _ = hotspot.ClearRules() },
+			clearRes:   func(res string) { _ = hotspot.ClearRulesOfResource(res) },
+			get:        func() string { return fmt.Sprint(len(hotspot.GetRules())) },
+			getRes:     func(res string) string { return fmt.Sprint(len(hotspot.GetRulesOfResource(res))) },
+			trafficOp:  []sentinel.EntryOption{sentinel.WithArgs("v")},
+			trafficOp2: []sentinel.EntryOption{sentinel.WithArgs("w")},
+		})
+	}
 	out = append(out, modDef{name: "circuitbreaker",
 		load: func(ids ...string) {
 			var rs []*cb.Rule
@@ -330,6 +345,17 @@ func moduleScenarios(m modDef, quick bool) []*scenario {
 		Actors: []actor{{Name: "t1", Run: traffic("c", true, m.trafficOp...), Allowed: []string{"pass"}}, {Name: "t2", Run: traffic("c", false, m.trafficOp...), Allowed: []string{"pass"}}}})
 	out = append(out, &scenario{Name: m.name + ": traffic(b) || traffic(b) (warm state, blocked)", Setup: setupWarm, Three: true,
 		Actors: []actor{{Name: "t1", Run: traffic("b", true, m.trafficOp...), Allowed: []string{"blocked-by:bo"}}, {Name: "t2", Run: traffic("b", false, m.trafficOp...), Allowed: []string{"blocked-by:bo"}}}})
+	if m.trafficOp2 != nil {
+		// two requests for different values of the same rule: both walk the rule's shared per-value containers
+		setupWarm2 := func() {
+			setupWarm()
+			traffic("c", false, m.trafficOp2...)()
+		}
+		out = append(out, &scenario{Name: m.name + ": traffic(c,v) || traffic(c,w) (warm state, two values)", Setup: setupWarm2, Three: true,
+			Actors: []actor{{Name: "t1", Run: traffic("c", true, m.trafficOp...), Allowed: []string{"pass"}}, {Name: "t2", Run: traffic("c", false, m.trafficOp2...), Allowed: []string{"pass"}}}})
+		out = append(out, &scenario{Name: m.name + ": traffic(c,v) || traffic(c,w) (first use of both values)", Setup: setupPass, Three: true,
+			Actors: []actor{{Name: "t1", Run: traffic("c", true, m.trafficOp...), Allowed: []string{"pass"}}, {Name: "t2", Run: traffic("c", false, m.trafficOp2...), Allowed: []string{"pass"}}}})
+	}
 	// two writers
 	out = append(out, &scenario{Name: m.name + ": LoadRulesOfResource(a) || LoadRulesOfResource(b)", Setup: setup,
 		Actors: []actor{{Name: "w1", Run: func() string { m.loadRes("a", "an"); return "" }}, {Name: "w2", Run: func() string { m.loadRes("b", "bn"); return "" }}}})
